@@ -21,7 +21,7 @@ SHARDS = {'quick': 16, 'thorough': 16}
 MIN_NONTRIVIAL = {'quick': 8000, 'thorough': 100000}
 REQUIRED_CLASSES = ['atom-valid', 'atom-invalid-prefix', 'atom-prefixed', 'atom-two-letter-prefix', 'system-symbol',
                     'compound', 'compound-parenthesised', 'compound-numeric-factor', 'compound-fractional-exponent',
-                    'compound-cancelling', 'reject-unknown-symbol', 'reject-foreign-chars', 'reject-inside-compound',
+                    'compound-cancelling', 'reject-unknown-symbol', 'reject-pseudo-number', 'reject-foreign-chars', 'reject-inside-compound',
                     'roundtrip']
 REQUIRED_MONITORS = ['factor_compares', 'dimension_compares', 'roundtrip_compares', 'rejections_demanded']
 ASSUMPTIONS = ['units_ref reads UNIT_PREFIXES/UNIT_STANDARD/QUANTITY_UNITS once at worker start; the tables themselves are trusted',
@@ -121,7 +121,10 @@ def cases(rng, tier, shard, nshards, ctx):
     junk = ['x', 'zz', 'q', 'μ', 'k', 'kg ', '2', 'da', 'E', '_', 'k#', 'mm', 'Z', 'xy ', '?']
     for _ in range(nrej // nshards):
         r = rng.random()
-        if r < 0.25:
+        if r < 0.04:
+            # a "number" in a spelling the unit grammar does not have (words, underscores, capital E, plus sign, other digits)
+            yield dict(t='rej', kind='pseudo-number', tok=rng.choice(PSEUDO_NUMBERS), form=rng.choice(['%s', '%s*m', 'm/%s', 'km*%s/s', '%s*kg*m2/s2', '(%s*m)/s']), x=None)
+        elif r < 0.25:
             # unknown symbol
             s = ''.join(rng.choice('abcdefghijklmnopqrstuvwxyzABCDEFGHIJKLMNOPQRSTUVWXYZ') for _ in range(rng.randint(1, 5)))
             yield dict(t='rej', kind='unknown', atom=s, x=None)
@@ -317,6 +320,10 @@ def run_case(case, ctx):
                 return outcome(skip='random-string-is-a-unit')
             classes.append('reject-unknown-symbol')
             return must_reject(ctx, s, s, 1, 1, classes, mon, 'unknown-symbol')
+        if kind == 'pseudo-number':
+            text = case['form'] % case['tok']
+            classes.append('reject-pseudo-number')
+            return must_reject(ctx, text, case['tok'], 1, 1, classes, mon, 'number-in-a-spelling-outside-the-grammar')
         if kind == 'junk':
             a = case['a']
             if a[2].startswith('#') and not case['junk'].strip():
@@ -344,6 +351,10 @@ def run_case(case, ctx):
             classes.append('reject-inside-compound')
             return must_reject(ctx, text, s, a[3], a[4], classes, mon, 'foreign-characters-in-compound')
     raise ValueError(case)
+
+
+PSEUDO_NUMBERS = ['inf', 'nan', 'infinity', '-inf', 'Inf', 'NaN', '-nan', '1_0', '1_000', '1E3', '2.5E-3', '+5', '+1e3', '\u0661\u0662', '\uff15', '0x10', '1e', '1e+',
+                  '--2', '1.2.3', '1d3', '1,5', 'e5', '1e3.5']
 
 
 def is_number_like(s):
